@@ -207,6 +207,13 @@ func (routes RouteList) Compile(logger *zap.Logger, matchingTimeout time.Duratio
 			}
 			// end of match
 			if lastMatchedRouteIdx == len(routes)-1 {
+				if len(routes) == 0 {
+					// no route has matched (and thereby removed the deadline): remove it for next
+					err = cx.Conn.SetReadDeadline(time.Time{})
+					if err != nil {
+						return err
+					}
+				}
 				// next is called because if the last handler is terminal, it's already returned
 				return next.Handle(cx)
 			}
